@@ -276,3 +276,23 @@ def shard(ctx):
                                     "acc": r.get("ok", {}).get("acc")})
         if layer in ("rel", "dbg"):
             constructors(ctx, layer)
+
+
+def post(rep, tier, seed):
+    """thorough: a recorded sample covering every type and acceptance form is interpreted by Miri
+    (identifier transmutes, from_borrowed/from_box/from_rc/from_arc, unreachable_unchecked)."""
+    if tier != "thorough":
+        return {"miri": "thorough tier only"}
+    import random
+    from .. import miri
+    rng = random.Random(seed)
+    cmds = []
+    for t in ALL_TYPES:
+        seeds = idgen.valid_seeds(t if t in idgen.SIGIL or t in ("server_name", "mxc_uri", "room_version_id")
+                                  or t.endswith("key_id") else "opaque") + idgen.ladder(t)
+        for s in rng.sample(seeds, min(70, len(seeds))):
+            cmds.append({"op": "parse_id", "type": t, "s": s})
+            if rng.random() < 0.3:
+                cmds.append({"op": "parse_id", "type": t, "s": rng.choice(idgen.mutants(s, rng, limit=4) or [s])})
+    cmds.append({"op": "construct_id", "kind": "user_with_server", "localpart": "alice", "server": "example.org"})
+    return {"miri": miri.layer(rep, cmds, seed=seed)}
